@@ -13,6 +13,7 @@ import (
 	"sync/atomic"
 	"time"
 
+	"github.com/gotd/td/internal/verifhook"
 	"github.com/gotd/td/telegram/dcs"
 	"github.com/gotd/td/tg"
 	"github.com/gotd/td/verifharness/hx"
@@ -21,10 +22,16 @@ import (
 type fakeConn struct {
 	idx    int
 	closes int32
+	hsFail bool // the transport handshake on this connection fails (Write returns an error)
 }
 
-func (f *fakeConn) Read(p []byte) (int, error)         { return 0, errors.New("fake: read") }
-func (f *fakeConn) Write(p []byte) (int, error)        { return len(p), nil }
+func (f *fakeConn) Read(p []byte) (int, error) { return 0, errors.New("fake: read") }
+func (f *fakeConn) Write(p []byte) (int, error) {
+	if f.hsFail {
+		return 0, fmt.Errorf("dial-fail-%d (handshake write)", f.idx)
+	}
+	return len(p), nil
+}
 func (f *fakeConn) Close() error                       { atomic.AddInt32(&f.closes, 1); return nil }
 func (f *fakeConn) LocalAddr() net.Addr                { return &net.TCPAddr{} }
 func (f *fakeConn) RemoteAddr() net.Addr               { return &net.TCPAddr{} }
@@ -37,21 +44,27 @@ type Act struct {
 	Cancel bool `json:"cancel,omitempty"`
 	I      int  `json:"i"`
 	Ok     bool `json:"ok"`
+	Hs     bool `json:"hs,omitempty"` // TCP connection established, transport handshake fails (a failed dial that must close its socket)
 }
 
+// Script: Acts run one after the other with settling; then the dials of Race complete and are held right
+// before their select (verifhook point dcs.connect.dialed) and released together, with the caller's
+// cancellation if RaceCancel.
 type Script struct {
-	N    int   `json:"n"`
-	Acts []Act `json:"acts"`
+	N          int   `json:"n"`
+	Acts       []Act `json:"acts"`
+	Race       []Act `json:"race,omitempty"`
+	RaceCancel bool  `json:"race_cancel,omitempty"`
 }
 
 type outcome struct {
-	Kind    int    // 0 conn, 1 error, 2 ctx error, 3 still running
-	Arg     []int  // returned conn index / failures mentioned by the error
-	Closed  []int  // connections closed by the resolver at quiescence
-	Open    []int  // established and not closed at quiescence
+	Kind    int   // 0 conn, 1 error, 2 ctx error, 3 still running
+	Arg     []int // returned conn index / failures mentioned by the error
+	Closed  []int // connections closed by the resolver at quiescence
+	Open    []int // established and not closed at quiescence
 	ErrText string
 	Viol    []string
-	Acts    []Act // script incl. the forced completions of dials that only return on ctx.Done
+	Tail    []Act // forced completions of dials that only return on ctx.Done
 }
 
 func runScript(sc Script) outcome {
@@ -67,11 +80,27 @@ func runScript(sc Script) outcome {
 		exited[i] = make(chan struct{})
 	}
 	scripted := make([]bool, n)
-	for _, a := range sc.Acts {
+	hs := make([]bool, n)
+	for _, a := range append(append([]Act(nil), sc.Acts...), sc.Race...) {
 		if !a.Cancel {
 			scripted[a.I] = true
+			hs[a.I] = a.Hs
 		}
 	}
+	// breakpoint: the racing dialers are held between the return of their dial and their select
+	racing := map[int]bool{}
+	for _, a := range sc.Race {
+		racing[a.I] = true
+	}
+	gate := make(chan struct{})
+	var arrived int32
+	verifhook.Set(func(point string, key int64) {
+		if point == "dcs.connect.dialed" && racing[int(key)-1000] {
+			atomic.AddInt32(&arrived, 1)
+			<-gate
+		}
+	})
+	defer verifhook.Set(nil)
 	dial := func(ctx context.Context, network, addr string) (net.Conn, error) {
 		var i int
 		fmt.Sscanf(addr, "10.0.0.%d:", &i)
@@ -84,10 +113,10 @@ func runScript(sc Script) outcome {
 		}
 		// a scripted dial completes exactly when told, also after its context was cancelled (late success)
 		ok := <-cmds[i]
-		if !ok {
+		if !ok && !hs[i] {
 			return nil, fmt.Errorf("dial-fail-%d", i)
 		}
-		c := &fakeConn{idx: i}
+		c := &fakeConn{idx: i, hsFail: hs[i]}
 		mu.Lock()
 		conns[i] = c
 		mu.Unlock()
@@ -95,7 +124,7 @@ func runScript(sc Script) outcome {
 	}
 	var opts []tg.DCOption
 	for i := 0; i < n; i++ {
-		opts = append(opts, tg.DCOption{ID: 2, IPAddress: fmt.Sprintf("10.0.0.%d", i), Port: 443})
+		opts = append(opts, tg.DCOption{ID: 2, IPAddress: fmt.Sprintf("10.0.0.%d", i), Port: 1000 + i})
 	}
 	res := dcs.Plain(dcs.PlainOptions{Dial: dial})
 	ctx, cancel := context.WithCancel(context.Background())
@@ -132,7 +161,6 @@ func runScript(sc Script) outcome {
 	cancelled := false
 	fails := 0
 	for _, a := range sc.Acts {
-		out.Acts = append(out.Acts, a)
 		if a.Cancel {
 			cancelled = true
 			cancel()
@@ -150,7 +178,7 @@ func runScript(sc Script) outcome {
 			} else {
 				time.Sleep(200 * time.Microsecond)
 			}
-		case a.Ok:
+		case a.Ok && !a.Hs:
 			poll(10 * time.Second)
 		default:
 			fails++
@@ -161,13 +189,64 @@ func runScript(sc Script) outcome {
 			}
 		}
 	}
+	if len(sc.Race) > 0 {
+		for _, a := range sc.Race {
+			commanded[a.I] = true
+			cmds[a.I] <- a.Ok
+		}
+		dl := time.Now().Add(10 * time.Second)
+		for atomic.LoadInt32(&arrived) < int32(len(sc.Race)) && time.Now().Before(dl) {
+			time.Sleep(20 * time.Microsecond)
+		}
+		must := sc.RaceCancel
+		for _, a := range sc.Race {
+			if a.Ok && !a.Hs {
+				must = true
+			} else {
+				fails++
+			}
+		}
+		if fails == n {
+			must = true
+		}
+		if sc.RaceCancel {
+			cancelled = true
+			go cancel()
+		}
+		close(gate)
+		if must {
+			poll(10 * time.Second)
+		}
+		// every released dialer has to finish its select: established connections other than the returned
+		// one get closed; wait until at most one of them is still open (none if no connection is returned)
+		dl = time.Now().Add(3 * time.Second)
+		for time.Now().Before(dl) {
+			open := 0
+			mu.Lock()
+			for _, a := range sc.Race {
+				if c := conns[a.I]; c != nil && atomic.LoadInt32(&c.closes) == 0 {
+					open++
+				}
+			}
+			mu.Unlock()
+			want := 0
+			if r != nil && r.c != nil {
+				want = 1
+			}
+			if open <= want {
+				break
+			}
+			time.Sleep(50 * time.Microsecond)
+		}
+		time.Sleep(300 * time.Microsecond)
+	}
 	poll(2 * time.Millisecond)
 	if r != nil || cancelled {
 		// dialCtx is cancelled: dials that only return on ctx.Done now fail (model: late failed dials)
 		for i := 0; i < n; i++ {
 			if !commanded[i] {
 				<-exited[i]
-				out.Acts = append(out.Acts, Act{I: i, Ok: false})
+				out.Tail = append(out.Tail, Act{I: i, Ok: false})
 			}
 		}
 		time.Sleep(300 * time.Microsecond)
@@ -181,6 +260,13 @@ func runScript(sc Script) outcome {
 		k := atomic.LoadInt32(&c.closes)
 		if k > 1 {
 			out.Viol = append(out.Viol, fmt.Sprintf("connection %d closed %d times", i, k))
+		}
+		if c.hsFail {
+			// not an established transport connection for the resolver: a failed dial that owns a socket
+			if k == 0 {
+				out.Viol = append(out.Viol, fmt.Sprintf("hs:connection %d (handshake failed) was not closed", i))
+			}
+			continue
 		}
 		if k > 0 {
 			out.Closed = append(out.Closed, i)
@@ -260,6 +346,9 @@ func waitClosed(conns []*fakeConn, mu *sync.Mutex, i int) {
 // oracle: the statement of C42 on the observations alone.
 func oracle(sc Script, o outcome) (string, string) {
 	for _, v := range o.Viol {
+		if strings.HasPrefix(v, "hs:") {
+			return "handshake-failed-conn-left-open", v[3:]
+		}
 		return "double-close-or-both", v
 	}
 	switch o.Kind {
@@ -277,7 +366,7 @@ func oracle(sc Script, o outcome) (string, string) {
 	}
 	if o.Kind == 1 {
 		// an error that is not the caller's cancellation must combine all N failures
-		cancelled := false
+		cancelled := sc.RaceCancel
 		for _, a := range sc.Acts {
 			if a.Cancel {
 				cancelled = true
@@ -289,12 +378,15 @@ func oracle(sc Script, o outcome) (string, string) {
 	}
 	if o.Kind == 3 {
 		// still running is legitimate only while some dial has not returned and nothing succeeded
-		for _, a := range sc.Acts {
-			if a.Cancel || a.Ok {
+		for _, a := range append(append([]Act(nil), sc.Acts...), sc.Race...) {
+			if a.Cancel || (a.Ok && !a.Hs) {
 				return "no-result", "connect did not return although a dial succeeded or the caller cancelled"
 			}
 		}
-		if len(sc.Acts) == sc.N {
+		if sc.RaceCancel {
+			return "no-result", "connect did not return although the caller cancelled"
+		}
+		if len(sc.Acts)+len(sc.Race) == sc.N {
 			return "no-result", "connect did not return although every dial failed"
 		}
 	}
@@ -302,13 +394,20 @@ func oracle(sc Script, o outcome) (string, string) {
 }
 
 func coqCase(sc Script, o outcome) string {
-	var acts []string
-	for _, a := range o.Acts {
-		if a.Cancel {
-			acts = append(acts, "ACancel")
-		} else {
-			acts = append(acts, fmt.Sprintf("(ADial %d%%nat %s)", a.I, hx.B(a.Ok)))
+	acts := func(l []Act) string {
+		var r []string
+		for _, a := range l {
+			if a.Cancel {
+				r = append(r, "ACancel")
+			} else {
+				r = append(r, fmt.Sprintf("(ADial %d%%nat %s)", a.I, hx.B(a.Ok && !a.Hs)))
+			}
 		}
+		return hx.List(r)
+	}
+	var race []string
+	for _, a := range sc.Race {
+		race = append(race, fmt.Sprintf("(%d%%nat, %s)", a.I, hx.B(a.Ok && !a.Hs)))
 	}
 	nl := func(v []int) string {
 		s := make([]string, len(v))
@@ -317,7 +416,46 @@ func coqCase(sc Script, o outcome) string {
 		}
 		return hx.List(s)
 	}
-	return hx.Tuple(fmt.Sprintf("%d%%nat", sc.N), hx.List(acts), hx.Tuple(fmt.Sprintf("%d%%nat", o.Kind), nl(o.Arg), nl(o.Closed), nl(o.Open)))
+	// Check_C42.mk is a typed constructor: elaborating large nested tuple literals is slow in Coq
+	return fmt.Sprintf("(Check_C42.mk %d%%nat %s %s %s %s %d%%nat %s %s %s)", sc.N, acts(sc.Acts), hx.List(race), hx.B(sc.RaceCancel),
+		acts(o.Tail), o.Kind, nl(o.Arg), nl(o.Closed), nl(o.Open))
+}
+
+// raceScripts: every subset of at least two dials released together (each succeeding or failing), with and
+// without the caller's cancellation, optionally after one settled failure of another dial; and a single
+// pending dial racing with the cancellation.
+func raceScripts(n int, f func(Script)) {
+	for mask := 0; mask < 1<<n; mask++ {
+		var idx []int
+		for i := 0; i < n; i++ {
+			if mask&(1<<i) != 0 {
+				idx = append(idx, i)
+			}
+		}
+		if len(idx) == 1 {
+			for _, ok := range []bool{true, false} {
+				f(Script{N: n, Race: []Act{{I: idx[0], Ok: ok}}, RaceCancel: true})
+			}
+		}
+		if len(idx) < 2 {
+			continue
+		}
+		for out := 0; out < 1<<len(idx); out++ {
+			var race []Act
+			for k, i := range idx {
+				race = append(race, Act{I: i, Ok: out&(1<<k) != 0})
+			}
+			for _, cancel := range []bool{false, true} {
+				f(Script{N: n, Race: race, RaceCancel: cancel})
+				for j := 0; j < n; j++ {
+					if mask&(1<<j) == 0 {
+						f(Script{N: n, Acts: []Act{{I: j, Ok: false}}, Race: race, RaceCancel: cancel})
+						break
+					}
+				}
+			}
+		}
+	}
 }
 
 // all partial permutations of 0..n-1 with outcomes, optionally with one cancellation at each position
@@ -359,9 +497,15 @@ func main() {
 		c.Obs.Evaluations++
 		c.Count(fmt.Sprintf("%s:n=%d:acts=%d", kind, sc.N, len(sc.Acts)))
 		c.Count(fmt.Sprintf("result:%d", o.Kind))
-		sh, ix := c.Case(coqCase(sc, o), map[string]interface{}{"script": sc, "kind": o.Kind, "arg": o.Arg, "closed": o.Closed, "open": o.Open})
+		sh, ix := c.Case(coqCase(sc, o), map[string]interface{}{"script": sc, "tail": o.Tail, "kind": o.Kind, "arg": o.Arg, "closed": o.Closed, "open": o.Open})
 		succ, late := 0, false
-		for _, a := range sc.Acts {
+		if len(sc.Race) >= 2 || (len(sc.Race) == 1 && sc.RaceCancel) {
+			c.Count("racy-release")
+		}
+		for _, a := range append(append([]Act(nil), sc.Acts...), sc.Race...) {
+			if a.Hs {
+				c.Count("handshake-failure")
+			}
 			if !a.Cancel && a.Ok {
 				succ++
 			}
@@ -387,6 +531,17 @@ func main() {
 	one("corpus", Script{N: 2, Acts: []Act{{I: 0, Ok: true}, {I: 1, Ok: true}}})
 	one("corpus", Script{N: 2, Acts: []Act{{I: 1, Ok: false}, {I: 0, Ok: false}}})
 	one("corpus", Script{N: 3, Acts: []Act{{Cancel: true}, {I: 2, Ok: true}}})
+	one("corpus", Script{N: 2, Acts: []Act{{I: 0, Hs: true}, {I: 1, Ok: true}}})                   // handshake failure closes its socket
+	one("corpus", Script{N: 2, Acts: []Act{{I: 0, Hs: true}, {I: 1, Hs: true}}})                   // all fail, one error names both
+	one("corpus", Script{N: 3, Acts: []Act{{I: 1, Ok: true}, {I: 0, Hs: true}}})                   // handshake fails after the winner
+	one("corpus", Script{N: 2, Race: []Act{{I: 0, Ok: true}, {I: 1, Ok: true}}})                   // two successes pending at once
+	one("corpus", Script{N: 2, Race: []Act{{I: 0, Ok: true}, {I: 1, Ok: true}}, RaceCancel: true}) // ... racing the cancellation
+	// racy releases: dials held right before their select and released together
+	raceScripts(2, func(s Script) { one("race", s) })
+	raceScripts(3, func(s Script) { one("race", s) })
+	if c.Thorough() {
+		raceScripts(4, func(s Script) { one("race", s) })
+	}
 	// exhaustive for small N
 	enumerate(2, true, func(s Script) { one("all", s) })
 	enumerate(3, true, func(s Script) { one("all", s) })
@@ -406,14 +561,34 @@ func main() {
 				continue
 			}
 			used |= 1 << i
-			acts = append(acts, Act{I: i, Ok: c.Rng.Chance(2, 5)})
+			a := Act{I: i, Ok: c.Rng.Chance(2, 5)}
+			if !a.Ok && c.Rng.Chance(1, 3) {
+				a.Hs = true
+			}
+			acts = append(acts, a)
 		}
 		if c.Rng.Chance(1, 3) {
 			p := c.Rng.Intn(len(acts) + 1)
 			acts = append(acts[:p], append([]Act{{Cancel: true}}, acts[p:]...)...)
 		}
-		one("random", Script{N: n, Acts: acts})
+		sc := Script{N: n, Acts: acts}
+		if c.Rng.Chance(1, 3) {
+			// move the last two or three dial completions into a racy release
+			k := 0
+			for len(sc.Acts) > 0 && k < 3 && !sc.Acts[len(sc.Acts)-1].Cancel {
+				sc.Race = append(sc.Race, sc.Acts[len(sc.Acts)-1])
+				sc.Acts = sc.Acts[:len(sc.Acts)-1]
+				k++
+			}
+			sc.RaceCancel = len(sc.Race) > 0 && c.Rng.Chance(1, 3)
+			for _, a := range sc.Acts {
+				if a.Cancel {
+					sc.RaceCancel = false
+				}
+			}
+		}
+		one("random", sc)
 	}
-	c.Obs.Rule = "one case = one script for dcs.Plain.Primary with N in 2..5 racing fake dials: a sequence of dial completions (success or failure; dials not in the script never return by themselves) and at most one caller cancellation; all scripts for N<=3 (N<=4 in the thorough tier), random ones for N=4,5; non-trivial = at least two dials succeed or at least one established connection had to be closed by the resolver; distinct = distinct script"
+	c.Obs.Rule = "one case = one script for dcs.Plain.Primary with N in 2..5 racing fake dials: a sequence of dial completions (success or failure; dials not in the script never return by themselves) and at most one caller cancellation; all scripts for N<=3 (N<=4 in the thorough tier), random ones for N=4,5; racy releases: every subset of >=2 dials (or one dial plus the cancellation) held at the verifhook point between dial return and select and released together, the observation must be one of the model's fair completions; dials whose transport handshake fails (socket must be closed by the failed dial); non-trivial = at least two dials succeed or at least one established connection had to be closed by the resolver; distinct = distinct script"
 	c.Finish()
 }
